@@ -155,6 +155,22 @@ Proof.
     + cbn in Ecf. pose proof (graph_ok n _ ps Hn) as (_ & _ & Hs). destruct ed; discriminate.
 Qed.
 
+(* Graph.get_hash on any such store: the node hash of the cache-free semantics, whatever the caches hold *)
+Theorem hash_transparent o F h v (interfere : cstore -> cstore) :
+  (forall s, CInvS s -> CInvS (interfere s)) ->
+  o <= List.length g -> sem apply raises g ins F o = Some (h, v) ->
+  exists pl, forall σ, CInvS σ -> exists k s', (forall k', k <= k' ->
+      get_hash (shape g) (gens_of g) apply raises cstore cget cset interfere ins o σ k' = Finished cstore (SHashOut h pl) s')
+    /\ CInvS (sto cstore s').
+Proof.
+  intros Hint Ho Hsem.
+  destruct (sem_spec g apply raises ins graph_ok _ _ _ _ Hsem) as (pl & [Fh Hh] & _).
+  exists pl. intros σ Hc.
+  apply (call_refines_w (shape g) (gens_of g) apply raises ins cstore cget cset Good CInvS
+           (fun st c k r st' => cinv_get st c k r st') (fun st c k v0 => cinv_set st c k v0) interfere Hint o Hwf
+           ltac:(unfold shape; rewrite map_length; lia) gens_gok WH Fh (SHashOut h pl) σ Hh Hc).
+Qed.
+
 (* one call on a store whose entries are Good, with arbitrary Good-preserving interference by other threads *)
 Theorem call_transparent o F h v σ (interfere : cstore -> cstore) :
   (forall s, CInvS s -> CInvS (interfere s)) ->
